@@ -6,6 +6,7 @@
 static char line[1 << 20], a1[1 << 19], a2[1 << 19];
 static unsigned char b1[1 << 18], b2[1 << 18];
 static long ncmp_calls;
+static int use_default;
 static int (*base_cmp)(const void *, size_t, const void *, size_t);
 /* the byte ordering computed by a comparator that leaves errno set, as one built on strtoul()/strcoll() may (ERANGE): what a
    comparator leaves in errno is not a result of the table operation */
@@ -68,7 +69,9 @@ int main(void) {
         if (!strcmp(op, "cmp") || !strcmp(op, "new")) {
             if (!strcmp(op, "cmp")) base_cmp = !strcmp(a1, "rev") ? rev_cmp : !strcmp(a1, "len") ? len_cmp : !strcmp(a1, "ci") ? ci_cmp : !strcmp(a1, "errno") ? errno_cmp : qtreetbl_byte_cmp;
             if (t && !dead) t->free(t);
-            t = qtreetbl(0); qtreetbl_set_compare(t, counting_cmp); dead = 0; continue;
+            if (!strcmp(op, "cmp")) use_default = !strcmp(a1, "default");
+            t = qtreetbl(0); if (!use_default) qtreetbl_set_compare(t, counting_cmp);   /* "default": the table as the constructor leaves it, no comparator installed by the caller */
+            dead = 0; continue;
         }
         if (!strcmp(op, "dump")) { dump = atoi(a1); continue; }
         if (!strcmp(op, "settid")) { t->tid = (uint8_t)atoi(a1); continue; }   /* test set-up only: used right after "new" */
@@ -92,7 +95,7 @@ int main(void) {
                 } else if (op[1] == 'g') {
                     size_t ds = 12345; ncmp_calls = 0; errno = 0; void *d = qtreetbl_get(t, k, &ds, true); int e = errno; long c = ncmp_calls;
                     if (d) { puthex(stdout, d, ds); scribble_free(d, ds); } else printf("%s", (e == ENOENT || e == EINVAL) ? "none" : "-");
-                    printf(" cmps=%ld", c);
+                    if (!use_default) printf(" cmps=%ld", c);
                 } else printf("%s", qtreetbl_remove(t, k) ? "true" : "false");
                 scribble_free(k, nk + 1);
             } else if (!strcmp(op, "putself")) {
@@ -120,7 +123,7 @@ int main(void) {
                 } else d = qtreetbl_getobj(t, k, nk, &ds, true);
                 int e = errno; long c = ncmp_calls; scribble_free(k, nk);
                 if (d) { puthex(stdout, d, ds); free(d); } else printf("%s", (e == ENOENT || e == EINVAL) ? "none" : "-");
-                if (nk) printf(" cmps=%ld", c);
+                if (nk && !use_default) printf(" cmps=%ld", c);
             } else if (!strcmp(op, "remove")) {
                 size_t nk = unhex(a1, b1); void *k = dupbuf(b1, nk);
                 bool r = qtreetbl_removeobj(t, k, nk); scribble_free(k, nk);
